@@ -101,6 +101,9 @@ theorem singleton_eq (tbl : ClassTable) {o l : Obj} (hs : isSingleton tbl l = tr
   cases l <;> simp only [isSingleton, Bool.false_eq_true] at hs <;>
     cases o <;> simp only [Obj.tag] at ht <;> (try omega) <;> simp_all [Obj.pyEq]
 
+theorem CmpOp.mirror_eval (op : CmpOp) (a b : Int) : op.mirror.eval a b = op.eval b a := by
+  cases op <;> simp only [CmpOp.mirror, CmpOp.eval] <;> grind
+
 theorem CmpOp.neg_eval (op : CmpOp) (a b : Int) : op.neg.eval a b = !op.eval a b := by
   cases op <;> simp only [CmpOp.neg, CmpOp.eval] <;> grind
 
@@ -818,8 +821,9 @@ theorem eq_of_pyEq {o l : Obj} (hs : (!(Obj.pyEq o l) || objDeq o l) = true)
 theorem member_keeps {tbl : ClassTable} {T : BoolTable} (L : NLaws tbl T) {c : Cond} {pol : Bool}
     {o : Obj} {m : Ty} (hok : memberOk m = true) (hc : condOk tbl c o = true)
     (hw : condWf tbl c = true) (ho : objOk tbl T o = true) (hh : holds tbl c o = pol)
-    (hd : dK tbl T (c.kAt pol) (tested c) o m = []) (hm : mem tbl o m = true) :
-    Kept tbl T (c.kAt pol) o m := by
+    (hdc : dCond T c o = [])
+    (hd : dK tbl T (c.kAt T pol) (tested c) o m = []) (hm : mem tbl o m = true) :
+    Kept tbl T (c.kAt T pol) o m := by
   cases c with
   | isinst cs =>
     cases pol <;> simp only [Cond.kAt, Cond.k, K.invert, Bool.not_true, Bool.false_eq_true, if_false,
@@ -867,6 +871,20 @@ theorem member_keeps {tbl : ClassTable} {T : BoolTable} (L : NLaws tbl T) {c : C
     simp only [holds, hk] at hh
     cases pol <;> simp only [Cond.kAt, Cond.k, K.invert, Bool.not_true, Bool.false_eq_true, if_false,
       if_true] <;> exact kept_len hk hh hm
+  | lenRev op n =>
+    simp only [condOk, Cond.literals, List.all_nil, Bool.and_true, Option.isSome_iff_exists] at hc
+    obtain ⟨k, hk⟩ := hc
+    simp only [holds, hk] at hh
+    simp only [dCond, hk] at hdc
+    have hop : (if T.lenRevMirrored then op.mirror else op).eval (Int.ofNat k) n = pol := by
+      cases hmir : T.lenRevMirrored
+      · simp only [hmir, Bool.not_false, Bool.true_and, ite_list_nil, bne_iff_ne, ne_eq] at hdc
+        simp only [Bool.false_eq_true, if_false]
+        have : op.eval n (Int.ofNat k) = op.eval (Int.ofNat k) n := Decidable.of_not_not hdc
+        rw [← this]; exact hh
+      · simp only [if_true, CmpOp.mirror_eval]; exact hh
+    cases pol <;> simp only [Cond.kAt, Cond.k, K.invert, Bool.not_true, Bool.false_eq_true, if_false,
+      if_true] <;> exact kept_len hk hop hm
   | assertInst k =>
     cases pol <;> simp only [Cond.kAt, Cond.k, K.invert, Bool.not_true, Bool.false_eq_true, if_false,
       if_true, holds] at hd hh ⊢
@@ -933,7 +951,7 @@ theorem member_keeps {tbl : ClassTable} {T : BoolTable} (L : NLaws tbl T) {c : C
     · exact kept_in_neg L (elems_wf hw) ho hh hm
 
 theorem narrow_eq (tbl : ClassTable) (T : BoolTable) (v : Ty) (c : Cond) (pol : Bool) :
-    narrow tbl T v c pol = constrainKs tbl T v [c.kAt pol] := rfl
+    narrow tbl T v c pol = constrainKs tbl T v [c.kAt T pol] := rfl
 
 /-- the value is never lost, outside the exception classes -/
 theorem narrow_keeps_core {tbl : ClassTable} {T : BoolTable} (L : NLaws tbl T) {v : Ty} {c : Cond}
@@ -945,10 +963,12 @@ theorem narrow_keeps_core {tbl : ClassTable} {T : BoolTable} (L : NLaws tbl T) {
   obtain ⟨m, hmem, hom⟩ := (mem_iff_member tbl o v).mp hm
   have hok : memberOk m = true := by
     simp only [valueOk, List.all_eq_true] at hv; exact hv m hmem
-  have hdm : dK tbl T (c.kAt pol) (tested c) o m = [] := by
-    simp only [d02, List.flatMap_eq_nil_iff, List.mem_filter, and_imp] at hd
-    exact hd m hmem hom
-  obtain ⟨r, hr, hor⟩ := member_keeps L hok hc hw ho hh hdm hom
+  simp only [d02, List.append_eq_nil_iff] at hd
+  have hdm : dK tbl T (c.kAt T pol) (tested c) o m = [] := by
+    have := hd.2
+    simp only [List.flatMap_eq_nil_iff, List.mem_filter, and_imp] at this
+    exact this m hmem hom
+  obtain ⟨r, hr, hor⟩ := member_keeps L hok hc hw ho hh hd.1 hdm hom
   exact ⟨r, List.mem_flatMap.mpr ⟨m, hmem, hr⟩, hor⟩
 
 /-! ### 7. no widening -/
@@ -1005,7 +1025,7 @@ theorem pred_mem {tbl : ClassTable} {T : BoolTable} {p : Pred} {pos : Bool} {m r
 /-- what a single constraint application can produce from a member -/
 theorem nowiden_member {tbl : ClassTable} {T : BoolTable} (L : NLaws tbl T) {c : Cond} {pol : Bool}
     {o : Obj} {m r : Ty} (hw : condWf tbl c = true)
-    (hr : r ∈ applyK tbl T (c.kAt pol) m) (hor : mem tbl o r = true) :
+    (hr : r ∈ applyK tbl T (c.kAt T pol) m) (hor : mem tbl o r = true) :
     mem tbl o m = true ∨ mem tbl o (tested c) = true := by
   have hpred : ∀ pat po pos, r ∈ applyK tbl T (.predicate (.isAssignable pat po) pos) m →
       mem tbl o m = true ∨ mem tbl o pat = true := by
@@ -1382,7 +1402,10 @@ theorem alwaysTrueWrong_absent_core {tbl : ClassTable} {T : BoolTable} (hN : noL
     {v : Ty} {c : Cond} {pol : Bool} {o : Obj} (hv : valueOk v = true) :
     "alwaysTrueWrong" ∉ d02 tbl T v c pol o := by
   intro h
-  simp only [d02, List.mem_flatMap, List.mem_filter] at h
+  simp only [d02, List.mem_append, List.mem_flatMap, List.mem_filter] at h
+  rcases h with h | h
+  · unfold dCond at h
+    grind
   obtain ⟨m, ⟨hmem, hom⟩, hd⟩ := h
   have hok : memberOk m = true := by
     simp only [valueOk, List.all_eq_true] at hv; exact hv m hmem
@@ -1390,5 +1413,138 @@ theorem alwaysTrueWrong_absent_core {tbl : ClassTable} {T : BoolTable} (hN : noL
   rw [getBool_member tbl T hok] at hb
   have := boolNoMvv_true_sound hb (leakM_false_of_noLeak hN m) hom
   rw [ht] at this; cases this
+
+/-! ### 11. `match` statements with singleton patterns -/
+
+theorem negKs_singleton (T : BoolTable) (l : Obj) :
+    Pat.negKs T (.singleton l) = [.predicate (.equals l true) false] := by
+  simp [Pat.negKs, Pat.ac, Cond.k, AC.mkAnd, spliceAnd, AC.invert, K.invert, AC.apply]
+
+theorem ac_singleton_apply (T : BoolTable) (l : Obj) :
+    (Pat.ac T (.singleton l)).apply = [.predicate (.equals l true) true] := by
+  simp [Pat.ac, Cond.k, AC.apply]
+
+theorem ac_wildcard_apply (T : BoolTable) : (Pat.ac T .wildcard).apply = [.predicate .always true] := by
+  simp [Pat.ac, AC.apply]
+
+theorem caseKs_zero (T : BoolTable) (p : Pat) (ps : List Pat) :
+    caseKs T (p :: ps) 0 = (p.ac T).apply := by
+  simp [caseKs]
+
+theorem caseKs_succ (T : BoolTable) (p : Pat) (ps : List Pat) (i : Nat) :
+    caseKs T (p :: ps) (i + 1) = Pat.negKs T p ++ caseKs T ps i := by
+  simp [caseKs, List.append_assoc]
+
+theorem caseKs_nil (T : BoolTable) (i : Nat) : caseKs T [] i = [] := by
+  simp [caseKs]
+
+theorem singOkM_known (tbl : ClassTable) (k : Obj) : singOkM tbl (.known k) = true := by
+  simp [singOkM, unann]
+
+theorem mem_singles_of {l : Obj} (h : singles.any (fun s => objDeq l s) = true) : l ∈ singles := by
+  rw [List.any_eq_true] at h
+  obtain ⟨s, hs, hd⟩ := h
+  rw [objDeq_eq _ _ hd]; exact hs
+
+/-- sequential application with an invariant on the members -/
+theorem applySeq_keeps_inv {tbl : ClassTable} {T : BoolTable} {o : Obj} {P : Ty → Prop} :
+    ∀ {ks : List K} {vs : List Ty},
+    (∀ k ∈ ks, ∀ m, P m → mem tbl o m = true → ∃ r ∈ applyK tbl T k m, mem tbl o r = true ∧ P r) →
+    (∃ v ∈ vs, mem tbl o v = true ∧ P v) → ∃ r ∈ applySeq tbl T ks vs, mem tbl o r = true ∧ P r
+  | [], vs, _, hv => by simpa [applySeq] using hv
+  | k :: ks, vs, hk, hv => by
+    simp only [applySeq]
+    apply applySeq_keeps_inv (fun k' hk' => hk k' (by simp [hk']))
+    obtain ⟨v, hv, hov, hP⟩ := hv
+    obtain ⟨r, hr, hor, hPr⟩ := hk k (by simp) v hP hov
+    exact ⟨r, List.mem_flatMap.mpr ⟨v, hv, hr⟩, hor, hPr⟩
+
+/-- the negated branch of a singleton pattern: always sound, the invariant is kept -/
+theorem single_neg_step {tbl : ClassTable} {T : BoolTable} (L : NLaws tbl T) {l o : Obj} {m : Ty}
+    (hl : l ∈ singles) (ho : objOk tbl T o = true) (hh : Obj.same o l = false)
+    (hP : singOkM tbl m = true) (hm : mem tbl o m = true) :
+    ∃ r ∈ applyK tbl T (.predicate (.equals l true) false) m, mem tbl o r = true ∧ singOkM tbl r = true := by
+  have hlw : l.wf tbl = true := by
+    simp only [singles, List.mem_cons, List.mem_nil_iff, or_false] at hl
+    rcases hl with rfl | rfl | rfl <;> simp [Obj.wf]
+  obtain ⟨r, hr, hor⟩ := kept_equals_neg (useIs := true) L hlw ho (by simpa using hh) hm
+  refine ⟨r, hr, hor, ?_⟩
+  rcases shape_equals (pred_mem hr) with h | h | ⟨b, _, _, rfl⟩ | ⟨e, i, rfl, _, _, _⟩
+  · rw [h]; exact hP
+  · rw [h]; exact singOkM_known tbl l
+  · exact singOkM_known tbl _
+  · simp [singles] at hl
+
+/-- the positive branch of a singleton pattern on the (identical) subject -/
+theorem single_pos_step {tbl : ClassTable} {T : BoolTable} {l : Obj} {m : Ty}
+    (hl : l ∈ singles) (hP : singOkM tbl m = true) (hm : mem tbl l m = true) :
+    ∃ r ∈ applyK tbl T (.predicate (.equals l true) true) m, mem tbl l r = true ∧ singOkM tbl r = true := by
+  have hd : dK tbl T (.predicate (.equals l true) true) Ty.never l m = [] := by
+    simp only [dK]
+    simp only [singOkM, Bool.or_eq_true, List.all_eq_true, Bool.not_eq_true'] at hP
+    cases hu : unann m with
+    | known k => rfl
+    | _ =>
+      rw [hu] at hP
+      simp only [Bool.false_eq_true, false_or] at hP
+      rcases hP l hl with h | h
+      · rw [hm] at h; cases h
+      · simp [h]
+  obtain ⟨r, hr, hor⟩ := kept_equals_pos (T := T) hd hm
+  refine ⟨r, hr, hor, ?_⟩
+  rcases shape_equals (pred_mem hr) with h | h | ⟨b, _, _, rfl⟩ | ⟨e, i, rfl, _, _, _⟩
+  · rw [h]; exact hP
+  · rw [h]; exact singOkM_known tbl l
+  · exact singOkM_known tbl _
+  · simp [singles] at hl
+
+theorem matchSteps_keep {tbl : ClassTable} {T : BoolTable} (L : NLaws tbl T) {o : Obj}
+    (ho : objOk tbl T o = true) : ∀ (ps : List Pat), singlePats ps = true → ∀ (vs : List Ty),
+    (∃ v ∈ vs, mem tbl o v = true ∧ singOkM tbl v = true) →
+    ∃ r ∈ applySeq tbl T (caseKs T ps (firstMatch tbl ps o)) vs, mem tbl o r = true ∧ singOkM tbl r = true
+  | [], _, vs, hv => by simpa [caseKs_nil, applySeq] using hv
+  | .singleton l :: ps, hp, vs, hv => by
+    simp only [singlePats, Bool.and_eq_true] at hp
+    have hl := mem_singles_of hp.1
+    simp only [firstMatch, Pat.matches]
+    by_cases hs : Obj.same o l = true
+    · simp only [hs, if_true, caseKs_zero, ac_singleton_apply]
+      have hsing : isSingleton tbl l = true := by
+        simp only [singles, List.mem_cons, List.mem_nil_iff, or_false] at hl
+        rcases hl with rfl | rfl | rfl <;> rfl
+      obtain rfl := singleton_eq tbl hsing hs
+      exact applySeq_keeps_inv (P := fun m => singOkM tbl m = true)
+        (by intro k hk m hP hm
+            simp only [List.mem_singleton] at hk; subst hk
+            exact single_pos_step hl hP hm) hv
+    · simp only [hs, Bool.false_eq_true, if_false, caseKs_succ, negKs_singleton, applySeq_append]
+      apply matchSteps_keep L ho ps hp.2
+      exact applySeq_keeps_inv (P := fun m => singOkM tbl m = true)
+        (by intro k hk m hP hm
+            simp only [List.mem_singleton] at hk; subst hk
+            exact single_neg_step L hl ho (by simpa using hs) hP hm) hv
+  | .wildcard :: ps, _, vs, hv => by
+    simp only [firstMatch, Pat.matches, if_true, caseKs_zero, ac_wildcard_apply]
+    exact applySeq_keeps_inv (P := fun m => singOkM tbl m = true)
+      (by intro k hk m hP hm
+          simp only [List.mem_singleton] at hk; subst hk
+          exact ⟨m, by simp [applyK, applyPred], hm, hP⟩) hv
+  | .value _ :: _, hp, _, _ => by simp [singlePats] at hp
+  | .cls _ :: _, hp, _, _ => by simp [singlePats] at hp
+  | .or _ :: _, hp, _, _ => by simp [singlePats] at hp
+
+/-- a `match` statement whose patterns are `None` / `True` / `False` / `_`: the subject object
+belongs to the type inferred in the body of the case that runs (or on the fall-through path) -/
+theorem match_singletons_core {tbl : ClassTable} {T : BoolTable} (L : NLaws tbl T) {v : Ty}
+    {ps : List Pat} {o : Obj} (hp : singlePats ps = true) (hv : singOk tbl v = true)
+    (ho : objOk tbl T o = true) (hm : mem tbl o v = true) :
+    mem tbl o (matchBody tbl T v ps (firstMatch tbl ps o)) = true := by
+  unfold matchBody
+  rw [mem_constrainKs_iff]
+  obtain ⟨m, hmem, hom⟩ := (mem_iff_member tbl o v).mp hm
+  have hP : singOkM tbl m = true := by
+    simp only [singOk, List.all_eq_true] at hv; exact hv m hmem
+  obtain ⟨r, hr, hor, _⟩ := matchSteps_keep L ho ps hp (flatten1 v) ⟨m, hmem, hom, hP⟩
+  exact ⟨r, hr, hor⟩
 
 end Pya.C02
